@@ -3,7 +3,12 @@
 use crate::util::*;
 use crate::walk::edge_tok;
 use crate::Opts;
+use robopoker::cards::hand::Hand;
+use robopoker::clustering::abstraction::Abstraction;
+use robopoker::gameplay::game::Game;
 use robopoker::gameplay::ply::Turn;
+use robopoker::mccfr::data::Data;
+use robopoker::mccfr::tree::{Branch, Tree};
 use robopoker::mccfr::blueprint::Blueprint;
 use robopoker::mccfr::bucket::Bucket;
 use robopoker::mccfr::edge::Edge;
@@ -72,8 +77,9 @@ pub fn run(o: &Opts, _deck: &str) -> String {
         infosets.push((parity, picked));
     }
     let n = if o.thorough() { 300_000 } else { 50_000 };
-    let epochs_even = [0usize, 2, 390, 392, 1_000_000];
-    let epochs_odd = [1usize, 3, 391, 999_999];
+    // incl. counters at and beyond 2^24, where `epochs as f32` stops being exact and 2^-126 / epochs underflows
+    let epochs_even = [0usize, 2, 390, 392, 1_000_000, 16_777_214, 16_777_216, 16_777_218, 1 << 32, 1 << 40, 1 << 53];
+    let epochs_odd = [1usize, 3, 391, 999_999, 16_777_215, 16_777_217, (1 << 31) + 1, (1 << 40) + 1, (1 << 53) - 1];
     let mut aborts = 0u64;
     for k in 0..n {
         let (parity, infos) = &infosets[k % 2];
@@ -81,7 +87,7 @@ pub fn run(o: &Opts, _deck: &str) -> String {
         let nact = info.node().outgoing().len();
         let style = rng.below(9);
         let regrets: Vec<f32> = (0..nact).map(|_| { let st = if style == 8 { rng.below(8) } else { style }; regret_bits(&mut rng, st) }).collect();
-        let t = if *parity == 0 { epochs_even[rng.below(5) as usize] } else { epochs_odd[rng.below(4) as usize] };
+        let t = if *parity == 0 { epochs_even[rng.below(epochs_even.len() as u64) as usize] } else { epochs_odd[rng.below(epochs_odd.len() as u64) as usize] };
         let p = profile_for(info, &regrets, t);
         let r = catch(|| p.policy_vector(info));
         let rb = regrets.iter().map(|x| x.to_bits().to_string()).collect::<Vec<_>>().join(",");
@@ -171,6 +177,139 @@ pub fn run_c20(o: &Opts, _deck: &str) -> String {
         ));
     }
     let _ = Turn::Terminal;
+    // ---- information sets below the recalled depth: a Bucket recalls 16 edges, so nodes that agree on those, on the
+    // abstraction and on the menu are ONE information set whatever happened later; their PRNG streams and sampled
+    // branches must agree (trees built by hand through the public API, abstraction fixed per street)
+    let nwalks = if o.thorough() { 20_000 } else { 1500 };
+    let mut deep_groups = 0u64;
+    for _ in 0..nwalks {
+        let picks: Vec<u64> = (0..16).map(|_| rng.next()).collect();
+        let lines = catch(|| deep_walk(&picks)).unwrap_or(vec!["seedfn 0 0 0 | P".to_string()]);
+        for l in lines {
+            deep_groups += 1;
+            out.line(&l);
+        }
+    }
+    // ---- a chance node offered several deals: the pick is a function of (epoch, information set)
+    let nch = if o.thorough() { 12 } else { 3 };
+    for ci in 0..nch {
+        let r = catch(|| any_choice(ci)).unwrap_or(vec![format!("anychoice {} 0 | P", ci)]);
+        for l in r {
+            out.line_to(1, &l); // one shard: the per-node judgement looks across epochs
+        }
+    }
     let lines = out.finish();
-    format!("{{\"lines\":{},\"sampler_calls\":{}}}", lines, calls)
+    format!("{{\"lines\":{},\"sampler_calls\":{},\"deep_infoset_groups\":{}}}", lines, calls, deep_groups)
+}
+
+fn fixed_data(game: Game) -> Data {
+    Data::from((game, Abstraction::from((game.street(), 7))))
+}
+fn fixed_branches(node: &Node) -> Vec<Branch> {
+    node.branches().into_iter().map(|(e, g)| Branch(fixed_data(g), e, node.index())).collect()
+}
+/// a line of 16 edges that keeps the hand going, then every node up to three plies below it; decision nodes that
+/// share a Bucket are grouped and asked, at 6 epochs, for their PRNG stream and their sampled branch
+fn deep_walk(picks: &[u64]) -> Vec<String> {
+    let mut tree = Tree::empty(Player::default());
+    let mut head = tree.plant(fixed_data(Game::root())).index();
+    for k in 0..16 {
+        let mut brs: Vec<Branch> = { let node = tree.at(head); fixed_branches(&node) };
+        brs.retain(|b| !matches!(b.edge(), Edge::Fold | Edge::Shove));
+        if brs.is_empty() {
+            if std::env::var("VERIF_DEBUG").is_ok() { eprintln!("deep_walk: line ends after {} plies", k); }
+            return vec![];
+        }
+        // the smallest raise every other time, a passive edge otherwise: the line must last 16 plies on 100 chips
+        let mut raises: Vec<usize> = (0..brs.len()).filter(|i| matches!(brs[*i].edge(), Edge::Raise(_))).collect();
+        raises.sort_by(|a, b| match (brs[*a].edge(), brs[*b].edge()) {
+            (Edge::Raise(x), Edge::Raise(y)) => (x.0 as i64 * y.1 as i64).cmp(&(y.0 as i64 * x.1 as i64)),
+            _ => std::cmp::Ordering::Equal,
+        });
+        let passive: Vec<usize> = (0..brs.len()).filter(|i| !matches!(brs[*i].edge(), Edge::Raise(_))).collect();
+        let idx = if !raises.is_empty() && (picks[k] % 2 != 0 || passive.is_empty()) { raises[if picks[k] % 7 == 0 && raises.len() > 1 { 1 } else { 0 }] } else { passive[(picks[k] / 3) as usize % passive.len()] };
+        head = tree.fork(brs.swap_remove(idx)).index();
+    }
+    let mut frontier = vec![head];
+    let mut below = vec![];
+    for _ in 0..3 {
+        let mut next = vec![];
+        for h in frontier {
+            let brs = { let node = tree.at(h); fixed_branches(&node) };
+            for b in brs {
+                let c = tree.fork(b).index();
+                next.push(c);
+                below.push(c);
+            }
+        }
+        frontier = next;
+        if below.len() > 3000 { break; }
+    }
+    let mut groups: std::collections::BTreeMap<String, Vec<petgraph::graph::NodeIndex>> = Default::default();
+    for c in below {
+        let node = tree.at(c);
+        if node.player() != Player::chance() && node.branches().len() > 1 {
+            groups.entry(bkey(node.bucket())).or_default().push(c);
+        }
+    }
+    if std::env::var("VERIF_DEBUG").is_ok() { eprintln!("deep_walk: {} buckets, sizes {:?}", groups.len(), groups.values().map(|v| v.len()).collect::<Vec<_>>()); }
+    let mut out = vec![];
+    let mut profile = Profile::default();
+    for epoch in 0..6 {
+        for (key, members) in groups.iter().filter(|(_, m)| m.len() >= 2).take(6) {
+            let mut seeds = vec![];
+            let mut edges = vec![];
+            for m in members.iter().take(6) {
+                let node = tree.at(*m);
+                profile.witness(&node, &fixed_branches(&node));
+                use rand::Rng as _;
+                seeds.push(profile.rng(&node).gen::<u64>().to_string());
+                edges.push(edge_tok(profile.explore_one(fixed_branches(&node), &node)[0].edge()));
+            }
+            let depths: Vec<String> = members.iter().take(6).map(|m| tree.at(*m).history().len().to_string()).collect();
+            out.push(format!("seedfn {} {} {} | {} {}", epoch, key, depths.join(","), seeds.join(","), edges.join(",")));
+        }
+        profile.next();
+    }
+    out
+}
+/// the first chance node of a hand, offered 12 different deals, asked 20 times from 4 threads at each of 24 epochs
+fn any_choice(ci: usize) -> Vec<String> {
+    let mut tree = Tree::empty(Player::default());
+    let mut head = tree.plant(fixed_data(Game::root())).index();
+    let line: &[Edge] = if ci % 2 == 0 { &[Edge::Call, Edge::Check] } else { &[Edge::Call, Edge::Check, Edge::Draw, Edge::Check, Edge::Check] };
+    for e in line {
+        let brs = { let node = tree.at(head); fixed_branches(&node) };
+        let b = brs.into_iter().find(|b| b.edge() == e).expect("edge on the menu");
+        head = tree.fork(b).index();
+    }
+    let node = tree.at(head);
+    assert!(node.player() == Player::chance());
+    let mut games: Vec<Game> = vec![];
+    while games.len() < 12 {
+        for (_, g) in node.branches() {
+            let b = u64::from(Hand::from(g.board()));
+            if games.iter().all(|x| u64::from(Hand::from(x.board())) != b) {
+                games.push(g);
+            }
+        }
+    }
+    let offer = || -> Vec<Branch> { games.iter().map(|g| Branch(fixed_data(*g), Edge::Draw, node.index())).collect() };
+    let mut profile = Profile::default();
+    let mut out = vec![];
+    for epoch in 0..24 {
+        let p = &profile;
+        let ask = || -> String {
+            let chosen = p.explore_any(offer(), &node);
+            let b = u64::from(Hand::from(chosen[0].0.game().board()));
+            games.iter().position(|x| u64::from(Hand::from(x.board())) == b).map(|i| i.to_string()).unwrap_or("?".into())
+        };
+        let answers: Vec<String> = std::thread::scope(|s| {
+            let hs: Vec<_> = (0..4).map(|_| s.spawn(|| (0..5).map(|_| catch(|| ask()).unwrap_or("P".into())).collect::<Vec<_>>())).collect();
+            hs.into_iter().flat_map(|h| h.join().unwrap()).collect()
+        });
+        out.push(format!("anychoice {} {} {} | {}", ci, epoch, bkey(node.bucket()), answers.join(",")));
+        profile.next();
+    }
+    out
 }
